@@ -6,6 +6,8 @@ package main
 
 import (
 	"fmt"
+	"go/types"
+	"regexp"
 	"strings"
 )
 
@@ -103,3 +105,24 @@ func (w *World) VerifyLemma(lm *Lemma) *FuncResult {
 	res.Fatal = e.fatal
 	return res
 }
+
+// typingFact assumes the typing invariant (integer range, slice header sanity)
+// of one ground heap read made by a specification expression.  Reads that
+// mention quantified variables are skipped.
+func (e *Enc) typingFact(t types.Type, term string) {
+	if strings.Contains(term, "!") && (strings.Contains(term, "q") && quantVar.MatchString(term)) {
+		return
+	}
+	if e.typedArr == nil {
+		e.typedArr = map[string]bool{}
+	}
+	if e.typedArr[term] {
+		return
+	}
+	e.typedArr[term] = true
+	if ra := e.d.rangeAssumption(t, term, 0); ra != "" {
+		e.emit("(assert " + ra + ")")
+	}
+}
+
+var quantVar = regexp.MustCompile(`\b(q[0-9]*![A-Za-z_$][A-Za-z0-9_$]*|l![A-Za-z_]+|p![A-Za-z_]+|r[0-9]*!f|q!probe)`)
